@@ -113,6 +113,12 @@ pub struct Case {
     /// the redirect target references no marker (filter values still do)
     #[serde(default)]
     pub static_target: bool,
+    /// a second line of the same header, rejected by the pattern, follows the accepted one
+    #[serde(default)]
+    pub extra_header_line: bool,
+    /// Router::cache(None) is called before matching
+    #[serde(default)]
+    pub cached: bool,
 }
 
 pub struct Template {
@@ -223,7 +229,10 @@ pub fn build(case: &Case) -> (Rule, Request, RouterConfig, bool, Vec<(String, St
     req.created_at = Some("2024-03-05T10:00:00Z".parse().unwrap());
     if let (Some((n, _)), Some(v)) = (t.header, &header_val) {
         let name = if case.header_name_lower { n.to_lowercase() } else { n.to_string() };
-        req.add_header(name, v.clone(), rc.ignore_header_case);
+        req.add_header(name.clone(), v.clone(), rc.ignore_header_case);
+        if case.extra_header_line {
+            req.add_header(name, "zz-no-match".to_string(), rc.ignore_header_case);
+        }
     }
     if case.with_variables {
         // explicit variables of every kind; raw marker references are then not substituted (only variables are)
@@ -264,6 +273,9 @@ pub fn check_case(case: &Case) -> Vec<(String, String)> {
     let target_template = rule.target.clone().unwrap_or_default();
     let mut router = Router::<Rule>::from_config(rc.clone());
     router.insert(rule);
+    if case.cached {
+        router.cache(None);
+    }
     let matched = router.match_request(&req);
     let mut out = Vec::new();
     let types = types();
@@ -297,7 +309,7 @@ pub fn check_case(case: &Case) -> Vec<(String, String)> {
         "{}{}{}{}",
         t.name,
         if case.header_name_lower { ":header-name-lowercase" } else { "" },
-        if case.with_variables { ":variables" } else if case.static_target { ":static-target" } else { "" },
+        if case.with_variables { ":variables" } else if case.static_target { ":static-target" } else if case.extra_header_line { ":second-header-line" } else if case.cached { ":cached" } else { "" },
         if trs.is_empty() { String::new() } else { format!(":tr={}", trs.join(">")) }
     );
     let want_location = substitute(&target_template, &vars);
@@ -436,7 +448,13 @@ pub fn cases(tier: Tier) -> Vec<Case> {
                                         transformers: if i == n - 1 { chain.clone() } else { vec![] },
                                     })
                                     .collect();
-                                out.push(Case { template: ti, slots, header_name_lower, ignore_case, with_variables, static_target });
+                                out.push(Case { template: ti, slots: slots.clone(), header_name_lower, ignore_case, with_variables, static_target, extra_header_line: false, cached: false });
+                                if chain.is_empty() && !ignore_case {
+                                    out.push(Case { template: ti, slots: slots.clone(), header_name_lower, ignore_case, with_variables, static_target, extra_header_line: false, cached: true });
+                                    if t.header.is_some() {
+                                        out.push(Case { template: ti, slots, header_name_lower, ignore_case, with_variables, static_target, extra_header_line: true, cached: false });
+                                    }
+                                }
                             }
                         }
                     }
